@@ -3,6 +3,7 @@ package main
 import (
 	"fmt"
 	"go/ast"
+	"go/printer"
 	"go/token"
 	"go/types"
 	"strconv"
@@ -207,7 +208,20 @@ func init() {
 			failShape("Store: tmpDir assignment not found")
 		}
 
+		phases, evict := cnCleanSkeleton(findFunc(f, "dirCache", "clean"))
+
 		return genHeader +
+			"(* clean: its phases in source order (declarations and logging left out) *)\n" +
+			"Inductive clean_phase := PhWalk | PhReturnBelowHigh | PhSort | PhEvict | PhReturnTotal.\n" +
+			"Definition clean_phases : list clean_phase := [" + strings.Join(phases, "; ") + "].\n" +
+			"(* clean: the body of `for _, entry := range entries`, one constructor per statement (logging left out):\n" +
+			"   EvSkipIfMarked    if _, marked := cache.isMarked(entry.Path); marked { continue }\n" +
+			"   EvEvictOrSkip     newPath := entry.Path + lit; if os.Rename(entry.Path, newPath) fails { continue };\n" +
+			"                     if fs.RemoveAll(newPath) fails { continue }\n" +
+			"   EvSubtractSize    totalSize -= entry.Size\n" +
+			"   EvBreakBelowLow   if totalSize < lowWaterMark { break } *)\n" +
+			"Inductive evict_step := EvSkipIfMarked | EvEvictOrSkip | EvSubtractSize | EvBreakBelowLow.\n" +
+			"Definition evict_body : list evict_step := [" + strings.Join(evict, "; ") + "].\n" +
 			"(* shouldClean: (accepted lengths, index of the padding character, its byte) per disjunct *)\n" +
 			"Definition key_shapes : list (list N * N * N) := [" + strings.Join(shapes, "; ") + "]%N.\n" +
 			"Definition compressed_suffix : string := " + coqString(suffix) + ".\n" +
@@ -216,6 +230,142 @@ func init() {
 			"Definition rename_suffix : string := " + coqString(renameSuffix) + ".\n" +
 			"Definition tmp_suffix : string := " + coqString(tmpSuffix) + ".\n"
 	}
+}
+
+// cnCleanSkeleton pins the statement skeleton of dirCache.clean: the order of its phases and the
+// body of the eviction loop.  Declarations and log calls are skipped; every other statement must
+// be one of the recognised shapes (fail closed).  A recognised statement that is absent is simply
+// absent from the emitted lists: the proofs over them (Proof/C14_Interleave.v) then no longer check.
+func cnCleanSkeleton(fd *ast.FuncDecl) (phases, evict []string) {
+	if got := cnExpr(fd.Type.Params.List[0].Type); len(fd.Type.Params.List) != 1 || len(fd.Type.Params.List[0].Names) != 2 ||
+		fd.Type.Params.List[0].Names[0].Name != "highWaterMark" || fd.Type.Params.List[0].Names[1].Name != "lowWaterMark" || got != "uint64" {
+		failShape("clean: parameters are not (highWaterMark, lowWaterMark uint64)")
+	}
+	var loop *ast.RangeStmt
+	for _, st := range fd.Body.List {
+		switch x := st.(type) {
+		case *ast.DeclStmt:
+			if s := cnNode(x); s != "var totalSize uint64" {
+				failShape("clean: unexpected declaration %s", s)
+			}
+		case *ast.AssignStmt:
+			if s := cnNode(x); s != "entries := []cacheEntry{}" {
+				failShape("clean: unexpected assignment %s", s)
+			}
+		case *ast.ExprStmt:
+			call, ok := x.X.(*ast.CallExpr)
+			if !ok {
+				failShape("clean: unexpected statement %s", cnNode(x))
+			}
+			switch fn := cnExpr(call.Fun); {
+			case strings.HasPrefix(fn, "log."):
+			case fn == "sort.Slice" && len(call.Args) == 2 && cnExpr(call.Args[0]) == "entries":
+				phases = append(phases, "PhSort")
+			default:
+				failShape("clean: unexpected call %s", fn)
+			}
+		case *ast.IfStmt:
+			switch {
+			case x.Init != nil && strings.HasPrefix(cnNode(x.Init), "err := fs.Walk(cache.Dir, ") && cnExpr(x.Cond) == "err != nil" && x.Else == nil &&
+				cnEndsWith(x.Body, "return totalSize"):
+				phases = append(phases, "PhWalk")
+			case x.Init == nil && cnExpr(x.Cond) == "totalSize < highWaterMark" && x.Else == nil && len(x.Body.List) == 1 && cnEndsWith(x.Body, "return totalSize"):
+				phases = append(phases, "PhReturnBelowHigh")
+			default:
+				failShape("clean: unexpected if statement `if %s`", cnExpr(x.Cond))
+			}
+		case *ast.RangeStmt:
+			if loop != nil {
+				failShape("clean: more than one range loop")
+			}
+			if x.Key == nil || cnExpr(x.Key) != "_" || x.Value == nil || cnExpr(x.Value) != "entry" || cnExpr(x.X) != "entries" || x.Tok != token.DEFINE {
+				failShape("clean: the loop is not `for _, entry := range entries`")
+			}
+			loop = x
+			phases = append(phases, "PhEvict")
+		case *ast.ReturnStmt:
+			if cnNode(x) != "return totalSize" {
+				failShape("clean: unexpected %s", cnNode(x))
+			}
+			phases = append(phases, "PhReturnTotal")
+		default:
+			failShape("clean: unexpected statement %s", cnNode(st))
+		}
+	}
+	if loop == nil {
+		failShape("clean: eviction loop not found")
+	}
+	body := loop.Body.List
+	for i := 0; i < len(body); i++ {
+		switch x := body[i].(type) {
+		case *ast.ExprStmt:
+			if call, ok := x.X.(*ast.CallExpr); !ok || !strings.HasPrefix(cnExpr(call.Fun), "log.") {
+				failShape("clean loop: unexpected statement %s", cnNode(x))
+			}
+		case *ast.IfStmt:
+			switch {
+			case x.Init != nil && cnNode(x.Init) == "_, marked := cache.isMarked(entry.Path)" && cnExpr(x.Cond) == "marked" && x.Else == nil &&
+				len(x.Body.List) == 1 && cnEndsWith(x.Body, "continue"):
+				evict = append(evict, "EvSkipIfMarked")
+			case x.Init == nil && cnExpr(x.Cond) == "totalSize < lowWaterMark" && x.Else == nil && len(x.Body.List) == 1 && cnEndsWith(x.Body, "break"):
+				evict = append(evict, "EvBreakBelowLow")
+			default:
+				failShape("clean loop: unexpected if statement `if %s; %s`", cnNode(x.Init), cnExpr(x.Cond))
+			}
+		case *ast.AssignStmt:
+			switch s := cnNode(x); {
+			case s == "totalSize -= entry.Size":
+				evict = append(evict, "EvSubtractSize")
+			case strings.HasPrefix(s, "newPath := entry.Path + "):
+				if i+2 >= len(body) {
+					failShape("clean loop: newPath is not followed by the rename and the removal")
+				}
+				for k, want := range []string{"err := os.Rename(entry.Path, newPath)", "err := fs.RemoveAll(newPath)"} {
+					is, ok := body[i+1+k].(*ast.IfStmt)
+					if !ok || is.Init == nil || cnNode(is.Init) != want || cnExpr(is.Cond) != "err != nil" || is.Else != nil || !cnEndsWith(is.Body, "continue") {
+						failShape("clean loop: statement %d after newPath is not `if %s; err != nil { log; continue }`", k+1, want)
+					}
+				}
+				i += 2
+				evict = append(evict, "EvEvictOrSkip")
+			default:
+				failShape("clean loop: unexpected assignment %s", s)
+			}
+		default:
+			failShape("clean loop: unexpected statement %s", cnNode(body[i]))
+		}
+	}
+	return phases, evict
+}
+
+// cnEndsWith: the block consists of log calls followed by the given last statement.
+func cnEndsWith(b *ast.BlockStmt, last string) bool {
+	if len(b.List) == 0 || cnNode(b.List[len(b.List)-1]) != last {
+		return false
+	}
+	for _, st := range b.List[:len(b.List)-1] {
+		es, ok := st.(*ast.ExprStmt)
+		if !ok {
+			return false
+		}
+		call, ok := es.X.(*ast.CallExpr)
+		if !ok || !strings.HasPrefix(cnExpr(call.Fun), "log.") {
+			return false
+		}
+	}
+	return true
+}
+
+// cnNode prints a statement (or any node) on one line.
+func cnNode(n ast.Node) string {
+	if n == nil {
+		return ""
+	}
+	var b strings.Builder
+	if err := printer.Fprint(&b, token.NewFileSet(), n); err != nil {
+		failShape("cannot print node: %v", err)
+	}
+	return strings.Join(strings.Fields(b.String()), " ")
 }
 
 func cnReturnsFalse(b *ast.BlockStmt) bool {
